@@ -4,3 +4,6 @@ import AxVerif.Model.Wire
 import AxVerif.Generated.Wire
 import AxVerif.Driver.Wire
 import AxVerif.Thm.C20
+import AxVerif.Model.Value
+import AxVerif.Driver.Value
+import AxVerif.Thm.C19
